@@ -978,12 +978,22 @@ async def sc_busy(case: dict, a: Any, b: Any, notes: dict) -> str | None:
     out: dict[str, Any] = {}
 
     tried = anyio.Event()
+    tried_done = anyio.Event()
 
     async def first_send() -> None:
-        await a.send(big)
+        try:
+            await a.send(big)
+        except BaseException as e:  # noqa: BLE001
+            out["first_exc"] = type(e).__name__
+            tried_done.set()
+            return
         out["first_done_before_intruder"] = not tried.is_set()
         await tried.wait()
-        await a.send_eof()
+        try:
+            await a.send_eof()
+        except BaseException as e:  # noqa: BLE001
+            if out.get("eof2") != "ret":  # a second send_eof after an accepted one may be refused
+                out["eof_exc"] = type(e).__name__
 
     async def drain() -> None:
         got2 = 0
@@ -1009,6 +1019,15 @@ async def sc_busy(case: dict, a: Any, b: Any, notes: dict) -> str | None:
                 out["s2"] = "busy"
             except BaseException as e:  # noqa: BLE001
                 out["s2"] = type(e).__name__
+            # the same direction again, through send_eof(): refused, or deferred until the send in
+            # progress is through - never cutting it short
+            try:
+                await a.send_eof()
+                out["eof2"] = "ret"
+            except BusyResourceError:
+                out["eof2"] = "busy"
+            except BaseException as e:  # noqa: BLE001
+                out["eof2"] = type(e).__name__
             tried.set()
             tg.start_soon(drain)
     if out.get("first_done_before_intruder"):
@@ -1016,6 +1035,13 @@ async def sc_busy(case: dict, a: Any, b: Any, notes: dict) -> str | None:
                 f"nothing (kernel buffers {SOCKBUF})")
     if out.get("s2") != "busy":
         return f"second concurrent send: {out.get('s2')} instead of BusyResourceError"
+    if out.get("eof2") not in ("busy", "ret"):
+        return f"send_eof() during a blocked send raised {out.get('eof2')}"
+    if out.get("first_exc"):
+        return (f"a send in progress failed with {out['first_exc']} because another task called send_eof() "
+                f"(which {'was accepted' if out.get('eof2') == 'ret' else 'was refused'})")
+    if out.get("eof_exc"):
+        return f"send_eof() after the send raised {out['eof_exc']}"
     if out.get("bad"):
         return out["bad"]
     if out.get("got") != len(big):
